@@ -44,7 +44,8 @@ Fixpoint lex_gtb (a b : list Z) : bool :=
 Definition rs_fields (i : rsinfo) : list Z := [r_year i; r_month i; r_day i; r_hour i; r_minute i; r_second i; r_micro i].
 Definition rs_gtb (a b : rsinfo) : bool := lex_gtb (rs_fields a) (rs_fields b).
 
-(* the part after the swap: borrow chain, month-length three-way match, month borrow *)
+(* the part after the swap: borrow chain, month-length three-way match (the `Equal` arm is guarded by
+   `dtinfo1.day == days_in_last_month`, otherwise Equal falls through to the Greater arm), month borrow *)
 Definition rs_core (i1 i2 : rsinfo) (sign total_days : Z) : pdiff :=
   let year_diff := r_year i2 - r_year i1 in
   let month_diff := r_month i2 - r_month i1 in
@@ -65,7 +66,7 @@ Definition rs_core (i1 i2 : rsinfo) (sign total_days : Z) : pdiff :=
       let '(day_diff, month_diff) :=
         if day_diff <? days_in_month - days_in_last_month then
           ((if days_in_last_month <? r_day i1 then day_diff + r_day i1 else day_diff + days_in_last_month), month_diff)
-        else if day_diff =? days_in_month - days_in_last_month then (0, month_diff + 1)
+        else if (day_diff =? days_in_month - days_in_last_month) && (r_day i1 =? days_in_last_month) then (0, month_diff + 1)
         else (day_diff + days_in_last_month, month_diff) in
       (day_diff, month_diff - 1)
     else (day_diff, month_diff) in
